@@ -86,7 +86,7 @@ def reviewed : List Entry := [
     .constant⟩,
   ⟨"controller/promQueryLabelsController.go", "PromQueryLabelsController.Series", "write",
     ["str"],
-    .relay "QueryLabelsService.Series"⟩,
+    .relay "QueryLabelsService.series (through Series / PromSeries)"⟩,
   ⟨"controller/promQueryRangeController.go", "PromError", "stream",
     ["WriteMore×2", "WriteObjectEnd×1", "WriteObjectField×3", "WriteObjectStart×1", "WriteString×3"],
     .straightLine "promError_doc"⟩,
@@ -122,7 +122,7 @@ def reviewed : List Entry := [
     .relay "QueryLabelsService.GenericLabelReq"⟩,
   ⟨"controller/queryLabelsController.go", "QueryLabelsController.Series", "write",
     ["str"],
-    .relay "QueryLabelsService.Series"⟩,
+    .relay "QueryLabelsService.series (through Series / PromSeries)"⟩,
   ⟨"controller/queryRangeController.go", "QueryRangeController.QueryRange", "write",
     ["str.Str"],
     .relay "QueryRangeService.QueryRange / exportStreamsValue"⟩,
@@ -162,10 +162,13 @@ def reviewed : List Entry := [
   ⟨"service/queryLabelsService.go", "QueryLabelsService.GenericLabelReq", "send",
     ["`{\"status\": \"success\",\"data\": [`", "\",\"", "string(qStrLbl)", "\"]}\""],
     .modelled "labelsChunks" "labels_doc, labels_chunks_concat_valid"⟩,
-  ⟨"service/queryLabelsService.go", "QueryLabelsService.Values", "send",
+  ⟨"service/queryLabelsService.go", "QueryLabelsService.values", "send",
     ["\"{\\\"status\\\": \\\"success\\\",\\\"data\\\": []}\""],
     .constant⟩,
   ⟨"service/queryLabelsService.go", "QueryLabelsService.Series", "send",
+    ["`{\"status\":\"success\", \"data\":[]}`"],
+    .constant⟩,
+  ⟨"service/queryLabelsService.go", "QueryLabelsService.series", "send",
     ["`{\"status\":\"success\", \"data\":[]}`", "`{\"status\":\"success\", \"data\":[`", "\",\"", "lbls", "`]}`"],
     .modelled "seriesChunks; the first literal is the constant document for requests == nil" "series_doc_partial, series_chunks_concat_valid"⟩,
   ⟨"service/queryRangeService.go", "onErr", "send",
@@ -243,7 +246,7 @@ def reviewedGuards : List (String × String × String × String × List String) 
     ["i := 0", "i++", "i := 0", "i++"]),
   ("service/queryLabelsService.go", "QueryLabelsService.GenericLabelReq", "i != 0", "\",\"",
     ["i := 0", "i++"]),
-  ("service/queryLabelsService.go", "QueryLabelsService.Series", "i != 0", "\",\"",
+  ("service/queryLabelsService.go", "QueryLabelsService.series", "i != 0", "\",\"",
     ["i := 0", "i++"]),
   ("service/queryRangeService.go", "QueryRangeService.exportStreamsValue", "i == 0 || lastFp != e.Fingerprint", "stream.WriteObjectStart; stream.WriteObjectField; stream.WriteMore; stream.WriteObjectField; stream.WriteArrayStart",
     ["i := 0", "i = 1"]),
